@@ -242,6 +242,14 @@ def role_table(ctx, chk, rule, q, best, worst):
     if same and not any(t == pl for t in _sub(init)):
         chk.ok(rule, f.where(L.node), "Player 1 -> %s, Player 2 -> %s, any other owner -> None (case by case on state.player); stored at state.idx; whole state list" % (best, worst))
         return
+    # a player state that gets the result of ANOTHER method of its node (the table of the other phase, the other player's getter)
+    for owner, want in list(cases.items())[:2]:
+        got = norm(deep_simp(subst(u, lambda x: C(owner) if x == pl else None)))
+        if got[0] == "setitem" and got[1] == acc and got[2] == want[2] and got[3][0] == "mcall" and got[3][1] == st and got[3][2] != want[3][2] \
+                and any(got[3][2] in ctx.prog.classes[c_].methods for c_ in ctx.prog.classes):
+            chk.violation(rule, f.where(L.node), "a %s state is given `%s(...)`, specification: `%s(...)` - the reported strategy is read off another quantity / another player's rule" % (
+                owner, got[3][2], want[3][2]), expected=show(want), found=show(got)[:200], construct="%s wrong getter for %s" % (f.short, owner))
+            return
     # a player state whose entry is, under some further condition, something else than what its node method returns
     for owner, want in list(cases.items())[:2]:
         got = norm(deep_simp(subst(u, lambda x: C(owner) if x == pl else None)))
